@@ -119,7 +119,9 @@ func (dec *Decoder) decodeBigInt(t reflect.Type, tag byte, p **big.Int) {
 		*p = dec.readBigInt(t)
 	case TagDouble:
 		if bf := dec.readBigFloat(t); bf != nil {
-			if bf.MantExp(nil) > 1<<14 {
+			if bf.IsInf() || bf.MantExp(nil) > 1<<14 {
+				// (an exponent beyond big.Float's own range parses to an infinity, whose
+				// MantExp is 0: it has no integer value either)
 				// a few bytes like d1e600000000; would expand into hundreds of megabytes of
 				// digits; a double token denotes a double, whose exponent is below 2^10.
 				if dec.Error == nil {
